@@ -7,7 +7,7 @@ from abc import ABCMeta, abstractmethod
 from typing import TYPE_CHECKING
 
 # Third Party Imports
-from numpy import array, concatenate, zeros
+from numpy import array, array_equal, concatenate, zeros
 
 # Local Imports
 from ...physics.maths import fpe_equals
@@ -161,6 +161,11 @@ class ScheduledFiniteThrust(ContinuousStateChangeEvent, metaclass=ABCMeta):
                 self.start_time == other.start_time,
                 self.end_time == other.end_time,
                 self.thrust_func.func == other.thrust_func.func,
+                # [NOTE]: two burns over the same interval with different accelerations are different burns
+                all(
+                    array_equal(value, other.thrust_func.keywords.get(key))
+                    for key, value in self.thrust_func.keywords.items()
+                ),
                 self.agent_id == other.agent_id,
             ],
         )
